@@ -373,6 +373,42 @@ e2e_case(long idx, void *ctx)
         }
     }
     SDend(sd);
+    /* the same values as a data set with a dimension scale written by the single-file interface (DFSD) and read by SD:
+       data and scale come back as written whatever the storage flavour */
+    {
+        vfs_remove_file("/vmem/c06b.hdf");
+        int32 dd[1] = {5};
+        DFSDrestart();
+        DFSDclear();
+        if (DFSDsetdims(1, dd) == FAIL || DFSDsetNT(t->nt | FL[fl]) == FAIL || DFSDsetdimscale(1, 5, vals) == FAIL || DFSDputdata("/vmem/c06b.hdf", 1, dd, vals) == FAIL)
+            mc_violation("e2e:dfsd-write", "writing a %s %s data set with a scale through DFSD failed", FLNAME[fl], t->name);
+        else {
+            int32 S2 = SDstart("/vmem/c06b.hdf", DFACC_READ), nds = 0, nat = 0, s2 = FAIL;
+            SDfileinfo(S2, &nds, &nat);
+            for (int i = 0; i < nds && s2 == FAIL; i++) {
+                int32 c = SDselect(S2, i);
+                if (c != FAIL && !SDiscoordvar(c))
+                    s2 = c;
+                else if (c != FAIL)
+                    SDendaccess(c);
+            }
+            memset(back, 0, sizeof back);
+            if (s2 == FAIL || SDreaddata(s2, &st, NULL, &dim, back) == FAIL || memcmp(back, vals, (size_t)(5 * s)) != 0)
+                mc_violation("e2e:dfsd-sd-data", "%s %s values written by DFSD read back differently through SDreaddata", FLNAME[fl], t->name);
+            else {
+                int32 did = SDgetdimid(s2, 0), dsz = 0, dnt = 0, dna = 0;
+                char  dn[H4_MAX_NC_NAME + 1];
+                memset(back, 0, sizeof back);
+                if (did == FAIL || SDdiminfo(did, dn, &dsz, &dnt, &dna) == FAIL || dnt == 0 || SDgetdimscale(did, back) == FAIL)
+                    mc_violation("e2e:dfsd-sd-scale-missing", "the %s %s dimension scale written by DFSD is not visible through SD", FLNAME[fl], t->name);
+                else if (memcmp(back, vals, (size_t)(5 * s)) != 0)
+                    mc_violation("e2e:dfsd-sd-scale", "%s %s scale values written by DFSD read back differently through SDgetdimscale (scale type reported: %d)", FLNAME[fl],
+                                 t->name, (int)dnt);
+            }
+            if (S2 != FAIL)
+                SDend(S2);
+        }
+    }
     mc_outcome(mc_hash_i(MC_H0, 9000 + idx));
     if (idx % 7 == 0)
         mc_sample("end-to-end: 5 values of %s %s through VSwrite/VSread (both interlaces) and SDwritedata/SDreaddata (plain, strided); raw stored bytes compared "
